@@ -819,6 +819,12 @@ pub fn c13(tier: Tier) -> Vec<Case> {
         ("closure", star(seq(vec![lit("c"), field("g", "X")]))),
         ("nested", seq(vec![inc("Inc2"), opt(lit("c"))])),
         ("othertype", field("f", "Y")),
+        // bodies that are nothing but an optional / a closure (the include then stands where an inlined
+        // optional-in-optional would)
+        ("optional", opt(field("g", "X"))),
+        ("optional-seq", opt(seq(vec![lit("c"), field("g", "X"), lit("c")]))),
+        ("optional-tokens", opt(seq(vec![lit("c"), lit("b"), lit("b")]))),
+        ("closure-only", star(field("g", "X"))),
     ];
     let inc_dirs: Vec<(&str, Vec<Directive>)> = vec![
         ("plain", vec![]),
@@ -1009,6 +1015,31 @@ pub fn c14(tier: Tier) -> Vec<Case> {
                         if b.add(&fam, g, inputs.clone()) {
                             b.last().user_ctx = ctxv;
                         }
+                    }
+                }
+            }
+        }
+    }
+    // stateful user functions (they count down a budget kept in the user context): a closure whose body matches
+    // the empty string ends when the function says no; every yes is a match that must be collected
+    {
+        let tick = Rule::ext("Tick", "hrt::user::tick_ctx", None);
+        let tk = Rule::normal("Tk", vec![chk("has_budget")], seq(vec![]));
+        let tkb = Rule::normal("Tkb", vec![chk("has_budget")], opt(lit("b")));
+        for (rule, name) in [(tick, "Tick"), (tk, "Tk"), (tkb, "Tkb")] {
+            for body in [
+                seq(vec![star(field("t", name)), opt(lit("b"))]),
+                seq(vec![plus(field("t", name)), lit("c")]),
+                seq(vec![lit("b"), star(rref(name)), opt(field("u", name))]),
+                seq(vec![opt(field("t", name)), opt(field("u", name)), opt(field("v", name))]),
+                star(seq(vec![field("t", name), opt(lit("c"))])),
+            ] {
+                for root_noskip in [false, true] {
+                    let g = root_grammar(dirs(root_noskip, &[Directive::Export, Directive::Position]), body.clone(), &[rule.clone()]);
+                    // not filtered by the well-formedness analysis: a closure over a rule that may match nothing is
+                    // exactly the point, and the functions make it finite
+                    if b.add("hooks-stateful/ctx", g, inputs.clone()) {
+                        b.last().user_ctx = true;
                     }
                 }
             }
@@ -1311,6 +1342,20 @@ pub fn c20(tier: Tier) -> Vec<Case> {
         if b.add("pure/memo-rare-hit", g2, InputSpec::List(inputs2)) {
             b.last().note = "no-reference".into();
         }
+    }
+    // a memoized rule stored at thousands of positions in one parse, then asked again at the first one by a parse
+    // that fails: which entries a bounded table keeps must not show in the result
+    {
+        let g = Grammar {
+            rules: vec![
+                Rule::normal("Root", vec![Directive::Export, Directive::NoSkipWs], seq(vec![choice(vec![field("long", "Long"), field("short", "Short")]), Expr::Eoi])),
+                Rule::normal("Long", vec![Directive::NoSkipWs], seq(vec![star(field("items", "Item")), lit(".")])),
+                Rule::normal("Short", vec![Directive::NoSkipWs], field("first", "Item")),
+                Rule::normal("Item", vec![Directive::NoSkipWs, Directive::Memoize], lit("m")),
+            ],
+        };
+        let inputs: Vec<String> = vec!["m!".into(), "m".into(), format!("{}!", "m".repeat(7000)), format!("{}.", "m".repeat(5000)), format!("{}!", "m".repeat(4097)), format!("{}!", "m".repeat(4095))];
+        b.add("pure/memo-long", g, InputSpec::List(inputs));
     }
     // a left-recursive rule that grows several times (longer parses for the preemption-bounded schedule exploration)
     {
